@@ -117,6 +117,16 @@ def reachable(prog, roots, within=None):
     return seen
 
 
+def positional_params(callee, how=''):
+    a = callee.node.args
+    pos = [p.arg for p in a.posonlyargs + a.args]
+    if (callee.is_method or (callee.cls is not None and
+                             callee.parent is None)) and how != 'unbound':
+        if pos and pos[0] in ('self', 'cls'):
+            pos = pos[1:]
+    return pos
+
+
 def conformance(callee, node, how=''):
     """Does the call supply the callee's required parameters and only known
     keywords?  -> None when fine, else a message.  Calls with * / ** are
